@@ -1,5 +1,6 @@
 import Logrange.Proofs.WireRT
 import Logrange.Proofs.WriteLoopM
+import Logrange.Proofs.WritersLts
 /-!
 # C01 — Acknowledged writes are read back intact, exactly once, in write order
 
@@ -107,6 +108,29 @@ theorem write_appends (maxChunk : Nat) (hm : 1 ≤ maxChunk) (j : Journal) (batc
   refine ⟨e1, e2, by rw [hc]; exact e4, by rw [hc]; omega, by rw [hc]; simpa using e5, by rw [hc]; simpa using e6⟩
 
 example : (serviceWrite 20 [⟨[[1], [2]], 30⟩] [⟨5, [7, 7]⟩, ⟨0, [8]⟩, ⟨9, List.replicate 20 1⟩, ⟨1, [9]⟩]).2.calls.length = 2 := by decide
+
+/-- **The timestamp hull `iwrapper` reports is exact** (after /repo commit 6624754; regenerated fact
+`iwrapperUnsetIsFlag`): after handing out the records `r :: rs` — in this order, each possibly several times (`see_idem`) —
+since its creation (`resetMinMaxTs` is never called: regenerated fact `writeLoopResetsHull = false`), `minTs`/`maxTs` are the
+smallest/largest timestamp handed out, for every batch, including timestamps 0 and negative ones. -/
+theorem iwrapper_hull_exact (r : Rec) (rs : List Rec) :
+    let w := (r :: rs).foldl IW.see {}
+    w.tsSet = true ∧ (∀ x ∈ r :: rs, w.minTs ≤ x.ts ∧ x.ts ≤ w.maxTs) ∧
+      (∃ x ∈ r :: rs, x.ts = w.minTs) ∧ (∃ x ∈ r :: rs, x.ts = w.maxTs) := by
+  intro w
+  have hw : w = rs.foldl IW.see (({} : IW).see r) := rfl
+  have h := fold_exact rs (({} : IW).see r) [r] (see_first {} r rfl)
+  rw [← hw] at h
+  simpa [HullExact] using h
+
+/-- handing a record out twice (`Get` without `Next`, the peek at the end of each `Service.Write` iteration) is harmless -/
+theorem iwrapper_see_idempotent (w : IW) (r : Rec) : (w.see r).see r = w.see r := see_idem w r
+
+example : ([⟨5, []⟩, ⟨0, []⟩, ⟨-3, []⟩, ⟨0, []⟩] : List Rec).foldl IW.see {} = ⟨-3, 5, true⟩ := by decide
+
+/-- the hull is never reset inside `Service.Write` (so the hull announced for a later chunk of one batch also covers the
+batch's earlier records — wider than needed, never narrower) -/
+theorem hull_not_reset_in_write_loop : Generated.C01.writeLoopResetsHull = false := by decide
 
 /-! ## "a write the server cannot serve back must be rejected, not acknowledged" -/
 
@@ -246,5 +270,45 @@ example : (match serveWrite (fun t => if t = [] then some [] else if t = ofAscii
     | some (j', es) => decide (es = [⟨1, ofAscii "m", [1, 119, 1, 49, 1, 107, 1, 118]⟩, ⟨2, [], [1, 119, 1, 49]⟩] ∧
         readEvents 64 j' = some [⟨9, [], []⟩, ⟨1, ofAscii "m", [1, 119, 1, 49, 1, 107, 1, 118]⟩, ⟨2, [], [1, 119, 1, 49]⟩])
     | none => false) = true := by decide
+
+/-! ## concurrent writers -/
+
+/-- **Per-writer order and exactly-once under every interleaving**: for any number of writers, any batches, any
+`maxChunkSize` and EVERY schedule of the atomic steps (`submit`, `GetChunkForWrite`, one `Chunk.write` call) — so also when a
+batch spans a roll-over and is split by other writers' records — the journal filtered by writer `w` is the concatenation of
+the batches `w` has submitted, in order, minus exactly the not-yet-written rest of its current batch; once `w` is outside
+`Service.Write` (all its batches acknowledged) it is exactly its acknowledged batches in write order. -/
+theorem writers_interleave (maxChunk : Nat) (sched : List WritersLts.Label) (w : Nat) :
+    let s := WritersLts.run maxChunk {} sched
+    WritersLts.byWriter w (WritersLts.readAll s.chunks) ++ (s.loc w).pending = (s.loc w).submitted.flatten ∧
+    ((s.loc w).active = false →
+      WritersLts.byWriter w (WritersLts.readAll s.chunks) = (s.loc w).submitted.flatten) := by
+  intro s
+  have h := WritersLts.run_inv maxChunk sched {} WritersLts.init_inv w
+  refine ⟨h.stored, fun ha => ?_⟩
+  have := h.stored
+  rw [h.idle ha, List.append_nil] at this
+  exact this
+
+/-- **No duplicates, nothing foreign**: under every schedule each record occurs in the journal exactly as often as its
+writer submitted it, not counting the unwritten rest of that writer's current batch. -/
+theorem writers_exactly_once (maxChunk : Nat) (sched : List WritersLts.Label) (r : WritersLts.TRec) :
+    let s := WritersLts.run maxChunk {} sched
+    (WritersLts.readAll s.chunks).count r + ((s.loc r.w).pending).count r = ((s.loc r.w).submitted.flatten).count r := by
+  intro s
+  have h := (writers_interleave maxChunk sched r.w).1
+  have hc : (WritersLts.byWriter r.w (WritersLts.readAll s.chunks)).count r = (WritersLts.readAll s.chunks).count r := by
+    unfold WritersLts.byWriter
+    rw [List.count_filter]; simp
+  rw [← hc, ← List.count_append]
+  exact congrArg (List.count r) h
+
+/-- non-vacuity: writer 1's three-record batch spans a roll-over (two records fit a chunk) and writer 2's record lands
+between its second and third record; both writers end outside `Service.Write` -/
+example :
+    let s := WritersLts.run 10 {} [.submit 1 [[1], [2], [3]], .submit 2 [[9]], .getChunk 1, .chunkWrite 1, .getChunk 2,
+      .chunkWrite 2, .getChunk 2, .chunkWrite 2, .getChunk 1, .chunkWrite 1]
+    s.chunks.map (fun c => c.recs.map (fun r => (r.w, r.data))) = [[(1, [1]), (1, [2])], [(2, [9]), (1, [3])]] ∧
+    (s.loc 1).active = false ∧ (s.loc 2).active = false := by decide
 
 end Logrange.Props.C01
